@@ -421,10 +421,19 @@ def desugar_for(toks, k, itname, where):
         inner_post = " }"
         note = "R5:for-desugar+enumerate-counter"
 
+    mref = re.match(r"^&\s*(\w+)$", pat)
+    if mref:
+        # `&x` reference pattern (rejected by Verus in this position): bind the reference and copy out of it
+        pat = itname + "_ref"
+        inner_pre = "{ let %s = *%s; " % (mref.group(1), pat) + (inner_pre[2:] if inner_pre else "")
+        inner_post = " }"
+        note += "+deref-pattern"
+
     def syn(text):
         return [rl.Tok(t.kind, t.text, -1, -1) for t in rl.lex(text)]
 
-    head = syn("{ %slet mut %s = %s; loop {\nmatch %s.next() { Some(%s) => %s" % (pre, itname, expr, itname, pat, inner_pre))
+    head = (syn("{ %slet mut %s = %s; " % (pre, itname, expr)) + [rl.Tok("marker", "FORINIT %d" % k, -1, -1)]
+            + syn("loop {\nmatch %s.next() { Some(%s) => %s" % (itname, pat, inner_pre)))
     tailt = syn("%s None => break, } } }" % inner_post)
     body = ([toks[br], rl.Tok("marker", "FORSTART %d" % k, -1, -1)] + toks[br + 1:end]
             + [rl.Tok("marker", "FOREND %d" % k, -1, -1), toks[end]])
@@ -534,7 +543,7 @@ def parse_template(text):
         if m:
             cur.loops.setdefault(int(m.group(1)), []).append((ln, m.group(2)))
             continue
-        m = re.match(r"^loop-(pre|start|end|post)\s+(\d+)\s*\|\s?(.*)$", d)
+        m = re.match(r"^loop-(pre|start|end|post|init)\s+(\d+)\s*\|\s?(.*)$", d)
         if m:
             cur.lpos.setdefault((int(m.group(2)), m.group(1)), []).append((ln, m.group(3)))
             continue
@@ -748,7 +757,7 @@ def generate(unit, template_text, repo_root, units_dir=None):
                 if (k, "pre") in blk.lpos:
                     # a desugared `for` starts at the synthesized `{` four tokens before `loop`; find statement start
                     j = kw
-                    while j > 0 and body_toks[j - 1].start == -1 and body_toks[j - 1].kind != "marker":
+                    while j > 0 and body_toks[j - 1].start == -1 and (body_toks[j - 1].kind != "marker" or body_toks[j - 1].text.startswith("FORINIT")):
                         j -= 1
                     before.setdefault(j, []).append("PRE %d" % k)
                 if (k, "start") in blk.lpos:
@@ -837,9 +846,14 @@ def generate(unit, template_text, repo_root, units_dir=None):
             body_toks = [body_toks[0], rl.Tok("ws", pre_body, -1, -1)] + body_toks[1:]
         for t in body_toks:
             if t.kind == "marker":
-                mm = re.match(r"^(INV|PRE|START|END|POST|FORSTART|FOREND|FNSTART)(?: (\d+))?$", t.text)
+                mm = re.match(r"^(INV|PRE|START|END|POST|FORSTART|FOREND|FORINIT|FNSTART)(?: (\d+))?$", t.text)
                 kind_, k = mm.group(1), int(mm.group(2) or 0)
                 if kind_ in ("FORSTART", "FOREND"):
+                    continue
+                if kind_ == "FORINIT":
+                    if (k, "init") in blk.lpos:
+                        flush()
+                        emit_texts(blk.lpos[(k, "init")], "hint")
                     continue
                 flush()
                 if kind_ == "INV":
